@@ -28,7 +28,12 @@ try:
         rundir = os.path.join(wt, 'internal/cmd/tlgen')
         m2 = re.search(r'\./(gen|tlparser)', cmd)
         sub = 'internal/cmd/tlgen/' + (m2.group(1) if m2 else 'gen')
-    for f in files: shutil.copy(os.path.join(seed, 'demo', f), os.path.join(wt, sub, f))
+    tree = 'cp -r demo/.' in readme
+    if tree:
+        sub, rundir = '', wt
+        subprocess.check_call('cp -r %s/. %s/ && rm -f %s/README.txt' % (os.path.join(seed, 'demo'), wt, wt), shell=True)
+    else:
+        for f in files: shutil.copy(os.path.join(seed, 'demo', f), os.path.join(wt, sub, f))
     rc0, out0 = sh(cmd + ' 2>&1', rundir)
     res['demo_passes_without_patch'] = rc0 == 0
     rc, out = sh('git apply ' + os.path.join(seed, 'patch.diff'), wt)
@@ -37,7 +42,10 @@ try:
         rc1, out1 = sh(cmd + ' 2>&1', rundir)
         res['demo_fails_with_patch'] = rc1 != 0
         res['demo_tail_with_patch'] = out1[-600:]
-        for f in files: os.remove(os.path.join(wt, sub, f))
+        if tree:
+            sh('git clean -fdq', wt)
+        else:
+            for f in files: os.remove(os.path.join(wt, sub, f))
         ok = True
         for m_ in ['.', 'telegram/deeplinks', 'internal/cmd/tlgen']:
             rcb, outb = sh('go build ./... && go test -vet=off -count=1 ./...', os.path.join(wt, m_))
